@@ -3,7 +3,7 @@
    depth-first through _conditioned._dependencies),  the sampleGiven of every Distribution class
    of the fragment, and  Scenario._generateInner  (core/scenarios.py: soft-requirement activation,
    bounded rejection loop). *)
-From Coq Require Import QArith ZArith List Bool NArith.
+From Coq Require Import QArith ZArith List Bool NArith Qround Qabs.
 From Scenic Require Import C01.Prob.
 Import ListNotations.
 Open Scope Q_scope.
@@ -11,14 +11,54 @@ Open Scope Q_scope.
 (* ---- values *)
 Inductive val :=
 | VZ (z : Z)                    (* int (or a float holding an integer) *)
+| VQ (q : Q)                    (* float with a non-integral value (exact rational; see [mkq]) *)
 | VT (tag : N) (l : list val)   (* 0 tuple, 1 list, 2 Box(a,b), 3 sampled object (its random properties), 9 bound method *)
 | VErr.
 
 Inductive opcode :=
 | OAdd | OSub | ORSub | OMul | ONeg | OAbs | OFloorDiv | ORFloorDiv | OMod | ORMod
+| ODiv | ORDiv | OPow | ORPow | ODivmod | ORDivmod
 | OGetItem | OLen | OId | OMk (tag : N) | OAttr (k : nat) | OCall.
 
 Definition zdiv_ok (a b : Z) (f : Z -> Z -> Z) : val := if Z.eqb b 0 then VErr else VZ (f a b).
+
+(* numbers: ints and floats as exact rationals; a number with an integral value is a [VZ] *)
+Definition num (v : val) : option Q :=
+  match v with VZ z => Some (inject_Z z) | VQ q => Some q | _ => None end.
+Definition mkq (q : Q) : val :=
+  let r := Qred q in if Pos.eqb (Qden r) 1 then VZ (Qnum r) else VQ r.
+Definition qfloordiv (a b : Q) : Z := Qfloor (a / b).
+Definition qmod (a b : Q) : Q := a - b * inject_Z (qfloordiv a b).       (* Python's sign convention *)
+(* a op b on two numbers at least one of which is not an int-valued [VZ] pair handled below;
+   x ** n only for a non-negative integral exponent *)
+Definition qarith (o : opcode) (a b : Q) : val :=
+  match o with
+  | OAdd => mkq (a + b) | OSub => mkq (a - b) | OMul => mkq (a * b)
+  | ODiv => if Qeq_bool b 0 then VErr else mkq (a / b)
+  | OFloorDiv => if Qeq_bool b 0 then VErr else VZ (qfloordiv a b)
+  | OMod => if Qeq_bool b 0 then VErr else mkq (qmod a b)
+  | ODivmod => if Qeq_bool b 0 then VErr else VT 0%N [VZ (qfloordiv a b); mkq (qmod a b)]
+  | OPow => match mkq b with
+            | VZ n => if Z.ltb n 0 then VErr else mkq (Qpower a n)
+            | _ => VErr
+            end
+  | _ => VErr
+  end.
+(* the reflected operators compute  other op self *)
+Definition unreflect (o : opcode) : option opcode :=
+  match o with
+  | ORSub => Some OSub | ORFloorDiv => Some OFloorDiv | ORMod => Some OMod | ORDiv => Some ODiv
+  | ORPow => Some OPow | ORDivmod => Some ODivmod | _ => None
+  end.
+Definition num_op (o : opcode) (x y : val) : val :=
+  match num x, num y with
+  | Some a, Some b =>
+      match unreflect o with
+      | Some o' => qarith o' b a
+      | None => qarith o a b
+      end
+  | _, _ => VErr
+  end.
 
 Definition apply_op (o : opcode) (vs : list val) : val :=
   match o, vs with
@@ -28,6 +68,8 @@ Definition apply_op (o : opcode) (vs : list val) : val :=
   | OMul, [VZ a; VZ b] => VZ (a * b)
   | ONeg, [VZ a] => VZ (- a)
   | OAbs, [VZ a] => VZ (Z.abs a)
+  | ONeg, [VQ a] => mkq (- a)
+  | OAbs, [VQ a] => mkq (Qabs a)
   | OFloorDiv, [VZ a; VZ b] => zdiv_ok a b Z.div
   | ORFloorDiv, [VZ a; VZ b] => zdiv_ok b a Z.div
   | OMod, [VZ a; VZ b] => zdiv_ok a b Z.modulo
@@ -39,6 +81,8 @@ Definition apply_op (o : opcode) (vs : list val) : val :=
   | OAttr 2, [VT 2%N l] => VT 9%N [VT 2%N l]            (* bound method Box.total *)
   | OAttr k, [VT 2%N l] => nth k l VErr                (* Box.a, Box.b *)
   | OCall, [VT 9%N [VT 2%N [VZ a; VZ b]]; VZ k] => VZ (a + b + k)
+  | (OAdd | OSub | ORSub | OMul | OFloorDiv | ORFloorDiv | OMod | ORMod
+     | ODiv | ORDiv | OPow | ORPow | ODivmod | ORDivmod), [x; y] => num_op o x y
   | _, _ => VErr
   end.
 
@@ -107,9 +151,12 @@ Definition sem (k : nkind) (ovs : list (option val)) : ptree val :=
       | KConst v => Ret v
       | KDRange =>
           match vs with
-          | [VZ lo; VZ hi] =>
-              if Z.ltb hi lo then Rej                       (* raise RejectionException(emptyMessage) *)
-              else bind (randint_tree lo hi) (fun z => Ret (VZ z))
+          | [a; b] =>
+              match num a, num b with
+              | Some lo, Some hi =>                          (* ceil(low) .. floor(high), Rej when empty *)
+                  bind (ndrange_tree lo hi) (fun z => Ret (VZ z))
+              | _, _ => Ret VErr
+              end
           | _ => Ret VErr
           end
       | KDRangeW lo cum => bind (choices_tree cum) (fun k => Ret (VZ (lo + k)))
@@ -174,9 +221,16 @@ Fixpoint reval (m : memo) (e : rexpr) : val :=
   | RBin o a b => apply_op o [reval m a; reval m b]
   | RUn o a => apply_op o [reval m a]
   end.
+Definition vlt (a b : val) : bool :=
+  match num a, num b with Some x, Some y => negb (Qle_bool y x) | _, _ => false end.
+Definition vle (a b : val) : bool :=
+  match num a, num b with Some x, Some y => Qle_bool x y | _, _ => false end.
 Fixpoint val_eqb (a b : val) : bool :=
   match a, b with
   | VZ x, VZ y => Z.eqb x y
+  | VQ x, VQ y => Qeq_bool x y
+  | VZ x, VQ y => Qeq_bool (inject_Z x) y
+  | VQ x, VZ y => Qeq_bool x (inject_Z y)
   | VT s l, VT t r =>
       N.eqb s t &&
       (fix go (l r : list val) : bool :=
@@ -191,8 +245,8 @@ Fixpoint val_eqb (a b : val) : bool :=
 Fixpoint ceval (m : memo) (c : cond) : bool :=
   match c with
   | CTrue => true
-  | CLt a b => match reval m a, reval m b with VZ x, VZ y => Z.ltb x y | _, _ => false end
-  | CLe a b => match reval m a, reval m b with VZ x, VZ y => Z.leb x y | _, _ => false end
+  | CLt a b => vlt (reval m a) (reval m b)
+  | CLe a b => vle (reval m a) (reval m b)
   | CEq a b => val_eqb (reval m a) (reval m b)
   | CNe a b => negb (val_eqb (reval m a) (reval m b))
   | CAnd c d => ceval m c && ceval m d
